@@ -16,7 +16,9 @@ run C06 C06
 run C07 C07
 run C08 C08 C14
 run C09 C09
+run C10b C10
 run C13b C13
+run C16b C16
 run C14 C14 C15
 run C15 C15
 run C17b C17
